@@ -802,9 +802,15 @@ class EventGenerator:
             return None
 
         clazz = var.clazz
-        if clazz is None or self.context.is_derived(value, clazz):
+        if clazz is None:
             meta = self.context.fetch(value.__class__, namespace)
             return self.real_xsi_type(var.qname, meta.target_qname)
+
+        if self.context.is_derived(value, clazz):
+            # The field declares another model, the element name is not
+            # enough for the parser to pick the value class.
+            meta = self.context.fetch(value.__class__, namespace)
+            return meta.target_qname
 
         raise SerializerError(
             f"{value.__class__.__name__} is not derived from {clazz.__name__}"
